@@ -25,6 +25,26 @@ func init() {
 		c.ruleWalkState("immutable")
 		c.ruleIter("immutable", "indexing", "annotations")
 	}, Explanation: "wip"})
+	registerProp(&propDef{ID: "C03", Rules: func(c *Ctx) {
+		c.ruleSitesTONL()
+		c.rulePrunePred()
+		c.ruleGateBeforeDedup("testonly")
+		c.ruleTypeInfoHelpers()
+		c.rulePrune("testonly")
+		c.ruleWalkRoot("testonly")
+		c.ruleWalkState("testonly")
+		c.ruleIter("testonly", "indexing", "annotations")
+	}, Explanation: "wip"})
+	registerProp(&propDef{ID: "C04", Rules: func(c *Ctx) {
+		c.ruleSitesPKGO()
+		c.ruleGateBeforeDedup("packageonly")
+		c.ruleCopyWriteback("util")
+		c.ruleTypeInfoHelpers()
+		c.rulePrune("packageonly")
+		c.ruleWalkRoot("packageonly")
+		c.ruleWalkState("packageonly")
+		c.ruleIter("packageonly", "indexing", "annotations")
+	}, Explanation: "wip"})
 	registerProp(&propDef{ID: "C02", Rules: func(c *Ctx) {
 		c.ruleSitesCTOR()
 		c.rulePrune("constructor")
